@@ -62,7 +62,7 @@ func (f *WithInputFromOctets) Call(s *slip.Scope, args slip.List, depth int) (re
 		slip.TypePanic(s, depth, "args[0]", args[0], "symbol")
 	}
 	d2 := depth + 1
-	data := []byte(slip.CoerceToOctets(slip.EvalArg(s, args, 1, d2)).(slip.Octets))
+	data := octetBytes(slip.EvalArg(s, args, 1, d2))
 
 	s2 := s.NewScope()
 	s2.Let(sym, slip.NewInputStream(bytes.NewReader(data)))
